@@ -221,6 +221,8 @@ def gen_dom(rng, kind, force=None):
         ep = ''.join(rng.choice('abcdefXYZ019_.') for _ in range(ln)).encode()
         if ep == b'default':
             ep = b'defaul'
+        if rng.random() < 0.15:     # names around the reserved word `default` (only the exact name is dropped)
+            ep = rng.choice([b'default_admin', b'defaultOwner', b'default0', b'set_default', b'xdefault', b'defaultdefault', b'Default'])
         if rng.random() < 0.08:     # '%' inside the entrypoint: text form `addr%a%b`, split at the first '%' only
             i = rng.randrange(len(ep))
             ep = ep[:i] + b'%' + ep[i + 1:]
